@@ -24,6 +24,10 @@
 //! (the same loop; `ImmixSpace::attempt_mark` itself is driven by `casbit immix`), and
 //! `is_pinned || space_exhausted` = the `decline` argument. A space instance with real blocks is
 //! impractical here; every function called inside IS the real one.
+//!
+//! `casbit immix|los` call the private methods of the `ImmixSpace` / `LargeObjectSpace` instances of the
+//! process's MMTk instance: run `hx_unit` with `VERIF_PLAN=Immix` (checks/C17.py, C18.py do); under the
+//! default NoGC plan there is no such space and they answer `unsupported`.
 use super::vms::{CVm, COPIES, NEXT_COPY};
 use crate::proto::*;
 use crate::VerifVM;
